@@ -44,6 +44,7 @@ canonical tree of the resulting map, `Aergo.Props.C10.history_independent`), the
 are sampled by harness c02 (every block re-executed k times under GOMAXPROCS 1, 4, 16); everything inside
 LuaJIT/SQLite (VM stub).
 -/
+import Lean.Elab.Command
 import Aergo.Lemmas.Determ
 import Aergo.Model.Nondet
 import Aergo.Gen.NondetSites
@@ -117,6 +118,7 @@ private theorem pick_mem {α : Type} (xs : List α) : ∀ (idx : List Nat) (l : 
         · exact List.mem_of_getElem? hx
         · exact pick_mem xs is r hr a ha
 
+set_option maxRecDepth 100000 in
 /-- the keys of the table at the certified positions are exactly the generated sites (kernel: literal defeq) -/
 private theorem sites_at : Aergo.Nondet.pick Aergo.Nondet.keys siteIdx = some Aergo.Gen.NondetSites.sites := by rfl
 
@@ -143,8 +145,10 @@ private theorem loopRows_sub : ∀ r ∈ loopRows, r ∈ Aergo.Nondet.loopTable 
   | none => simp [h] at hr
   | some l => simp only [h, Option.getD_some] at hr; exact pick_mem _ _ _ h r hr
 
+set_option maxRecDepth 100000 in
 private theorem loopRows_len : loopRows.length = Aergo.Gen.NondetSites.loops.length := by rfl
 
+set_option maxRecDepth 100000 in
 /-- kernel: literal defeq of the recorded summaries with the generated ones (fingerprint where pinned) -/
 private theorem loopRows_view : loopRows.map Aergo.Nondet.viewRow =
     Aergo.Nondet.viewGen (loopRows.map (·.pin.isSome)) Aergo.Gen.NondetSites.loops := by rfl
@@ -192,10 +196,13 @@ theorem all_loops_match : ∀ g ∈ Aergo.Gen.NondetSites.loops, ∃ r ∈ Aergo
 /-- the table entries of the generated loops, in the order of `Gen.loops` -/
 def loopCovers : List (String × Aergo.Nondet.Cover) := (Aergo.Nondet.pick Aergo.Nondet.table loopCoverIdx).getD []
 
+set_option maxRecDepth 100000 in
 private theorem loopCovers_keys : loopCovers.map (·.1) = loopRows.map (·.key) := by rfl
 
+set_option maxRecDepth 100000 in
 private theorem loopCovers_len : loopCovers.length = loopRows.length := by rfl
 
+set_option maxRecDepth 100000 in
 private theorem loop_rules_hold :
     (List.zipWith (fun e r => Aergo.Nondet.classRule e.2 r) loopCovers loopRows).all id = true := by decide +kernel
 
@@ -231,6 +238,7 @@ theorem loop_class_rules : ∀ r ∈ loopRows, ∃ c, (r.key, c) ∈ Aergo.Nonde
 
 /-! #### the scan list -/
 
+set_option maxRecDepth 100000 in
 private theorem closure_at :
     Aergo.Nondet.pick Aergo.Gen.NondetSites.scannedDirs closureIdx = some Aergo.Gen.NondetSites.closure := by rfl
 
@@ -669,9 +677,11 @@ def theoremIndex : List (String × Lean.Name) := [
   ("Aergo.Props.C02.swapReoffer_perm", ``swapReoffer_perm),
   ("Aergo.Props.C02.producer_validator_agree", ``producer_validator_agree)]
 
+set_option maxRecDepth 100000 in
 /-- the names of `theoremIndex` are the list `theoremNames` the certificate was computed against -/
 private theorem index_names : theoremIndex.map (·.1) = theoremNames := by rfl
 
+set_option maxRecDepth 100000 in
 private theorem cited_at : Aergo.Nondet.pick theoremNames citedIdx = some Aergo.Nondet.citedTheorems := by rfl
 
 /-- Every theorem name the site table cites is one of `theoremIndex` (a renamed or deleted theorem must not
